@@ -250,7 +250,13 @@ def run_session(sess):
             for k, e in enumerate(hist):
                 p = pal[e['qi'] - 1]
                 if e['op'] == 'open':
-                    gens[e['s']] = iter(db(make_query(p['f'], p['q'])))
+                    qobj = make_query(p['f'], p['q'])
+                    gens[e['s']] = iter(db(qobj))
+                    # QuerySession.tla QueriesAreValues: the stream answers the query AS IT WAS PUT - every second time the
+                    # caller re-uses the query object for the next page / another question before reading the first row
+                    if k % 2 == 1:
+                        qobj.limit, qobj.offset = 1, 1
+                        qobj.every_nth = None
                     done.append(('open', e['s'], e['qi']))
                     continue
                 if e['op'] == 'count':
